@@ -242,6 +242,12 @@ def gen_sched(rng):
             stream.append(rng.choice([(-1, True), (-1, True), (1, True), (1, True), (2, True), (3, False)]))
         else:
             stream.append(rng.choice([(0, True), (0, True), (0, True), (2, True)]))
+    if not maxsma:
+        # without a (truthy) maxsma the growth stops only on failures: keep the largest reachable sma
+        # below ~300 pixels (every scripted outcome still samples the real image at that radius)
+        a0 = sma0 if sma0 else 7.0
+        while stream and (a0 + len(stream) * step if lin else a0 * (1.0 + step) ** len(stream)) > 300.0:
+            stream.pop()
     fixes = rng.choice([(False, False, False)] * 6 + [(True, False, False), (False, True, True),
                                                       (True, True, True)])
     use_sma0 = rng.random() < 0.8
